@@ -358,6 +358,13 @@ func (vc *VC) enterLoop(fr *Frame, li *loopInfo, cur *State) *State {
 	env2 := vc.loopEnv(fr, li, st)
 	if env2.idx != nil {
 		vc.assume(implies(st.reach, "(>= "+env2.idx.S+" (- 1))"))
+		// the builder's hidden range index: idx+1 < limit was true when the back
+		// edge was taken, and idx == -1 at entry, so idx < limit (limit >= 0)
+		if lim := rangeLimit(fr, li); lim != nil {
+			if lv, ok := fr.regs[lim]; ok && lv.S != "" {
+				vc.assume(implies(st.reach, "(< "+env2.idx.S+" (ite (< "+lv.S+" 0) 0 "+lv.S+"))"))
+			}
+		}
 	}
 	// automatic frame facts: memory below the entry allocation counter that the
 	// loop does not store to keeps its value — only for whole heaps (cheap case
@@ -580,9 +587,16 @@ func fnDisplayName(f *ssa.Function) string {
 // specVarsFor binds parameter and result names for a contract evaluation.
 func specVarsFor(fn *ssa.Function, args []*Val, results []*Val) map[string]*Val {
 	vars := map[string]*Val{}
-	for i, p := range fn.Params {
-		if i < len(args) {
-			vars[p.Name()] = args[i]
+	var names []string
+	if r := fn.Signature.Recv(); r != nil {
+		names = append(names, r.Name())
+	}
+	for i := 0; i < fn.Signature.Params().Len(); i++ {
+		names = append(names, fn.Signature.Params().At(i).Name())
+	}
+	for i, n := range names {
+		if i < len(args) && n != "" && n != "_" {
+			vars[n] = args[i]
 		}
 	}
 	res := fn.Signature.Results()
@@ -835,4 +849,52 @@ func resultTerms(rs []*Val) []string {
 		out = append(out, r.S)
 	}
 	return out
+}
+
+// rangeLimit recognises the go/ssa lowering of `for i := range x` and returns
+// the loop-invariant limit register: header = {t=*idx; u=t+1; *idx=u; c=u<lim; if c}.
+// The hidden index cell must not be stored anywhere else inside the loop.
+func rangeLimit(fr *Frame, li *loopInfo) ssa.Value {
+	var idxAlloc *ssa.Alloc
+	var lim ssa.Value
+	ins := li.head.Instrs
+	if len(ins) != 5 {
+		return nil
+	}
+	ld, ok0 := ins[0].(*ssa.UnOp)
+	add, ok1 := ins[1].(*ssa.BinOp)
+	stx, ok2 := ins[2].(*ssa.Store)
+	cmp, ok3 := ins[3].(*ssa.BinOp)
+	_, ok4 := ins[4].(*ssa.If)
+	if !(ok0 && ok1 && ok2 && ok3 && ok4) {
+		return nil
+	}
+	a, ok := ld.X.(*ssa.Alloc)
+	if !ok || a.Comment != "rangeindex" || ld.Op != token.MUL {
+		return nil
+	}
+	idxAlloc = a
+	one, isC := add.Y.(*ssa.Const)
+	if add.Op != token.ADD || add.X != ld || !isC || one.Int64() != 1 {
+		return nil
+	}
+	if stx.Addr != idxAlloc || stx.Val != add {
+		return nil
+	}
+	if cmp.Op != token.LSS || cmp.X != add {
+		return nil
+	}
+	lim = cmp.Y
+	// limit defined outside the loop
+	if in, ok := lim.(ssa.Instruction); ok && li.blocks[in.Block()] {
+		return nil
+	}
+	for b := range li.blocks {
+		for _, in := range b.Instrs {
+			if s, ok := in.(*ssa.Store); ok && s.Addr == idxAlloc && s != stx {
+				return nil
+			}
+		}
+	}
+	return lim
 }
